@@ -11,7 +11,7 @@ import os
 
 import numpy as np
 
-from ..kernel import chance, pick, wpick, adigest, sdigest
+from ..kernel import scribble, chance, pick, wpick, adigest, sdigest
 from ..refs.sphere import sep_deg
 from .. import present
 
@@ -547,6 +547,9 @@ def do_match(run, op, M, htm, root, judge, c15):
         o = htm.Matcher(m["depth2"], m["ra"], m["dec"]).match(qra, qdec, radius if op["perpoint"] and n1 > 1 else float(op["radius"]), maxmatch=-1)
         judge_pairs(run, dict(feats, depth=m["depth2"], via="depth2"), o[0], o[1], o[2], S, radius, -1,
                     "Matcher(depth=%d) on the same points" % m["depth2"])
+    # the caller owns the index/separation arrays it was handed
+    if scribble((m1, m2, d12)):
+        run.fault("caller_edited_a_result_in_place")
 
 
 def do_oneshot(run, op, HH, htm, root, judge):
@@ -602,6 +605,8 @@ def do_oneshot(run, op, HH, htm, root, judge):
         return
     S = brute(qra, qdec, ra2v, dec2v, radius)
     judge_pairs(run, feats, m1, m2, d12, S, radius, maxmatch, what)
+    if scribble((m1, m2, d12)):
+        run.fault("caller_edited_a_result_in_place")
 
 
 def chance_det(seed):
